@@ -361,7 +361,7 @@ func qeShutdownLive(n int) string {
 	if err != nil {
 		return "start-failed"
 	}
-	before := countListeners()
+	before := settledListeners()
 	for i := 0; i < n; i++ {
 		if _, ok := qeStartEvent(run, func(res.QueryRequest) {}); !ok {
 			run.Stop()
@@ -370,7 +370,7 @@ func qeShutdownLive(n int) string {
 	}
 	// a listener goroutine that has been created but has not run yet does not show its function in the dump
 	during := countListeners() - before
-	for wait := time.Now().Add(500 * time.Millisecond); during < n && time.Now().Before(wait); during = countListeners() - before {
+	for wait := time.Now().Add(3 * time.Second); during < n && time.Now().Before(wait); during = countListeners() - before {
 		time.Sleep(time.Millisecond)
 	}
 	run.Stop()
